@@ -37,9 +37,11 @@ func goid() int {
 var fileRunSeq int
 
 // file <nsenders> <sep-hex> <plan>: drive the real file transport. Plan events (comma separated):
-//   P<i>  start sender i and let it run to the schedule point between picking the writer and writing
-//   W<i>  let sender i write and return
-//   ROT   rotate: rename the output file and deliver SIGHUP; wait (briefly) for the reopen
+//
+//	P<i>  start sender i and let it run to the schedule point between picking the writer and writing
+//	W<i>  let sender i write and return
+//	ROT   rotate: rename the output file and deliver SIGHUP; wait (briefly) for the reopen
+//
 // Every step waits at most a short while, so a rotation blocked behind a reader simply completes
 // later. At the end everything is released and the files are checked.
 func opFile(st *state, args []string) []string {
@@ -62,8 +64,8 @@ func opFile(st *state, args []string) []string {
 	flag.Set("transport.file.sep", string(sep))
 
 	var mu sync.Mutex
-	senderOf := map[int]int{}           // goroutine id -> sender
-	tokens := map[int]chan struct{}{}   // sender -> release channel (present once arrived)
+	senderOf := map[int]int{}         // goroutine id -> sender
+	tokens := map[int]chan struct{}{} // sender -> release channel (present once arrived)
 	autoRelease := map[int]bool{}
 	arrived := make(chan int, 256)
 	reopened := make(chan struct{}, 64)
